@@ -87,7 +87,7 @@ REG.lemma("C11_batch_objects_plain_should_and_should_not",
           ensures=["viol_Q(g, u_of(g, S, O, imp_), b) == exists(Filter, lambda y: (y in O) and viol_Q(g, u_of(g, S, single(y), imp_), b))",
                    "fv_raises(g, u_of(g, S, O, imp_), b) == exists(Filter, lambda y: (y in O) and fv_raises(g, u_of(g, S, single(y), imp_), b))"],
           use=["conv_union_single(g, O)", "batch_importers(g, O, conv(g, S))", "batch_importees(g, O, conv(g, S))", "batch_raises(g, O, conv(g, S))"],
-          opaque=QO + SOME, cases=["imp_", "b.should", "b.should_not", "b.behavior_exception", "b.should_only"], properties=["C11"],
+          opaque=QO + SOME, cases=["imp_", "b.should", "b.should_not"], properties=["C11"],
           note="for plain should / should_not several objects equal the conjunction over objects")
 
 # ------------------------------------------------------------------ C15: re-applying a rule object
